@@ -175,6 +175,11 @@ impl Validator<'_> {
         // Used to check the absence of associativity attributes at the minimum level.
         let mut min_lvl = u32::MAX;
         let mut min_prec_ann: Option<&Attribute> = None;
+        // The level and the associativity attribute in effect: an alternative without
+        // attributes of its own continues those of the alternative before it (see
+        // `precedence::expand_nonterm`), a new level resets the associativity.
+        let mut cur_lvl: Option<u32> = None;
+        let mut cur_assoc: Option<&Attribute> = None;
 
         // Check that at least the first alternative has a precedence attribute
         alternatives
@@ -205,13 +210,8 @@ impl Validator<'_> {
                 match attr_prec.get_arg_equal() {
                     Some((name, value)) if name == &Atom::from(precedence::LVL_ARG) => {
                         if let Ok(lvl) = value.parse::<u32>() {
-                            if lvl < min_lvl {
-                                min_lvl = lvl;
-                                min_prec_ann = attr_assoc_opt;
-                            }
-                            else if lvl == min_lvl && min_prec_ann.is_none() && attr_assoc_opt.is_some() {
-                                min_prec_ann = attr_assoc_opt;
-                            }
+                            cur_lvl = Some(lvl);
+                            cur_assoc = None;
                         }
                         else {
                             return_err!(attr_prec.id_span, "could not parse the precedence level `{}`, expected integer", value);
@@ -231,6 +231,16 @@ impl Validator<'_> {
                     }
                     Some((name, _)) => return_err!(attr_assoc.id_span, "invalid argument `{}` for associativity attribute, expected `{}`", name, precedence::SIDE_ARG),
                     _ => return_err!(attr_assoc.id_span, "missing argument for associativity attribute, expected `{}`", precedence::SIDE_ARG),
+                }
+                cur_assoc = Some(attr_assoc);
+            }
+
+            if let Some(lvl) = cur_lvl {
+                if lvl < min_lvl {
+                    min_lvl = lvl;
+                    min_prec_ann = cur_assoc;
+                } else if lvl == min_lvl && min_prec_ann.is_none() {
+                    min_prec_ann = cur_assoc;
                 }
             }
 
